@@ -170,7 +170,7 @@ def oracle(ctx, hints=()):
         viol += v
         d2 += k
         evals += 4
-    sr = c05.scale_rule_cases(ctx, per_setting=ctx.n(1, 4, boost=3))
+    sr = c05.scale_rule_cases(ctx, per_setting=ctx.n(1, 4, boost=3)) + c05.long_axis_cases(ctx, 2)
     for i, c in enumerate(sr):
         v, k = check_unique(c, 'laue' if (i + ctx.seed) % 2 == 0 else 'tools', 'no', seed=i, variant=0)
         viol += v
